@@ -19,6 +19,7 @@ static Trace g_tr;
 struct Cb;
 static void adder_hook();
 static void copier_hook();
+static void assign_hook();
 #ifdef TRACKED
 // C08: every callback instance is counted; the live instances must be exactly the listeners of the live objects
 static int g_live_cb = 0, g_bad_cb = 0;
@@ -28,14 +29,14 @@ struct Cb {
 	Cb(const Cb & o) : id(o.id), magic(0xC0FFEEu) { if(o.magic != 0xC0FFEEu) ++g_bad_cb; ++g_live_cb; }
 	Cb & operator=(const Cb & o) { if(o.magic != 0xC0FFEEu || magic != 0xC0FFEEu) ++g_bad_cb; id = o.id; return *this; }
 	~Cb() { if(magic != 0xC0FFEEu) ++g_bad_cb; magic = 0xDEADu; --g_live_cb; }
-	void operator()(uint32_t a) const { if(magic != 0xC0FFEEu) ++g_bad_cb; g_tr.add(id, a, 0); if(id == 7777u) adder_hook(); if(id == 6666u) copier_hook(); }
+	void operator()(uint32_t a) const { if(magic != 0xC0FFEEu) ++g_bad_cb; g_tr.add(id, a, 0); if(id == 7777u) adder_hook(); if(id == 6666u) copier_hook(); if(id == 5555u) assign_hook(); }
 	bool operator==(const Cb & o) const { return id == o.id; }
 };
 #else
 struct Cb {
 	uint32_t id;
 	explicit Cb(uint32_t i) : id(i) {}
-	void operator()(uint32_t a) const { g_tr.add(id, a, 0); if(id == 7777u) adder_hook(); if(id == 6666u) copier_hook(); }
+	void operator()(uint32_t a) const { g_tr.add(id, a, 0); if(id == 7777u) adder_hook(); if(id == 6666u) copier_hook(); if(id == 5555u) assign_hook(); }
 	bool operator==(const Cb & o) const { return id == o.id; }
 };
 #endif
@@ -79,7 +80,7 @@ struct G { alignas(16) unsigned char store[NO][sizeof(T)]; Model m; uint32_t nex
 static G * g;
 static T * obj(int i) { return reinterpret_cast<T *>(g->store[i]); }
 
-enum { COV_COPY_CTOR = 0, COV_MOVE_CTOR, COV_COPY_ASSIGN, COV_MOVE_ASSIGN, COV_SWAP, COV_SELF_ASSIGN, COV_SELF_SWAP, COV_COPY_THEN_DIVERGE, COV_QUEUE_COPY_PENDING, COV_COPY_IN_LISTENER, COV_COPY_UNDER_DQN, COV_FILTERS_DIVERGE, COV_N };
+enum { COV_COPY_CTOR = 0, COV_MOVE_CTOR, COV_COPY_ASSIGN, COV_MOVE_ASSIGN, COV_SWAP, COV_SELF_ASSIGN, COV_SELF_SWAP, COV_COPY_THEN_DIVERGE, COV_QUEUE_COPY_PENDING, COV_COPY_IN_LISTENER, COV_COPY_UNDER_DQN, COV_FILTERS_DIVERGE, COV_DQN_ASSIGN, COV_ASSIGN_INSIDE, COV_N };
 
 #if OBJ == 0
 static T * g_adder_target = nullptr;
@@ -99,10 +100,10 @@ static T::Handle add(int i, uint32_t id)
 	return obj(i)->appendListener(EV, Cb(id));
 #elif OBJ == 3
 	if(id & 1) return obj(i)->append([id](uint32_t a, uint32_t b) { g_tr.add(id, a, b); });
-	else return obj(i)->append([id](uint32_t a) { g_tr.add(id, a, 0); });
+	else return obj(i)->append([id](uint32_t a) { g_tr.add(id, a, 0); if(id == 5556u) assign_hook(); });
 #else
 	if(id & 1) return obj(i)->appendListener(EV, [id](uint32_t a, uint32_t b) { g_tr.add(id, a, b); });
-	else return obj(i)->appendListener(EV, [id](uint32_t a) { g_tr.add(id, a, 0); });
+	else return obj(i)->appendListener(EV, [id](uint32_t a) { g_tr.add(id, a, 0); if(id == 5556u) assign_hook(); });
 #endif
 }
 static T::Handle prepend(int i, uint32_t id)
@@ -218,6 +219,27 @@ static void copier_hook()
 	}
 }
 
+// the object is replaced (copy-assigned from / swapped with another object) from inside one of its own listeners, while its invocation runs
+static int g_asg_dst = -1, g_asg_src = -1, g_asg_how = 0;
+static void assign_hook()
+{
+	if(g_asg_dst < 0) return;
+	int d = g_asg_dst, s2 = g_asg_src; g_asg_dst = -1;
+	if(g_asg_how == 0) *obj(d) = *obj(s2);
+	else {
+#if IS_QUEUE && OBJ == 5
+		obj(d)->swap(*obj(s2));
+#else
+		using std::swap; swap(*obj(d), *obj(s2));
+#endif
+	}
+}
+#if IS_HETER
+#define ASG_ID 5556u
+#else
+#define ASG_ID 5555u
+#endif
+
 extern "C" void harness()
 {
 	g = new G(); Model & m = g->m; g->nextid = 10;
@@ -249,16 +271,66 @@ extern "C" void harness()
 #endif
 	observe();      // also instantiates, empty, the per-prototype sub-list of the prototype nobody listens to yet (heterogeneous classes)
 	for(int step = 0; step < KK; step++) {
+		unsigned nkinds = (OBJ == 2 ? 11 : (IS_QUEUE ? 9 : 7));
 #ifdef FILTERS
-		const unsigned nk = (OBJ == 2 ? 11 : 7);
-		unsigned kind = vf_choose(nk + 2);
-#else
-		unsigned kind = vf_choose(OBJ == 2 ? 11 : (IS_QUEUE ? 9 : 7));
+		const unsigned nk = nkinds; nkinds += 2;
 #endif
+#if OBJ == 2
+		const unsigned kDqn = nkinds++;
+#endif
+#ifdef ASSIGN_INSIDE
+		const unsigned kAsg = nkinds++;
+#endif
+		unsigned kind = vf_choose(nkinds);
 		unsigned na = 0; int al[NO];
 		for(int i = 0; i < NO; i++) if(m.alive[i]) al[na++] = i;
 		int i = al[vf_choose(na)];
 		if(kind == 0) { if(m.n[i] < MAXL) { add(i, g->nextid); m.ids[i][m.n[i]++] = g->nextid++; } }
+#ifdef ASSIGN_INSIDE
+		else if(kind == kAsg) {           // object i is copy-assigned from / swapped with object j by one of i's own listeners while i is being invoked:
+			// nothing is demanded of WHICH remaining callbacks that invocation still calls; it must not touch freed memory, and once it has returned
+			// both objects hold exactly what the same assignment / swap would have produced outside an invocation
+			int j = al[vf_choose(na)];
+			if(j != i && m.n[i] < MAXL) {
+				add(i, ASG_ID); m.ids[i][m.n[i]++] = ASG_ID;
+				g_asg_dst = i; g_asg_src = j; g_asg_how = (int)vf_choose(2);
+				int how = g_asg_how;
+				uint32_t a = vf_nondet_u32();
+#if OBJ == 0
+				(*obj(i))(a);
+#elif OBJ == 1 || OBJ == 2
+				obj(i)->dispatch(EV, a);
+#elif OBJ == 3
+				(*obj(i))(a);
+#else
+				obj(i)->dispatch(EV, a);
+#endif
+				vf_assert(g_asg_dst == -1, 143);
+				if(how == 0) { for(int k = 0; k < 2; k++) if(g->hown[k] == i) g->hown[k] = -1; copy_model(j, i, false); }
+				else {
+					uint32_t tmp[MAXL]; int tn = m.n[i];
+					for(int k = 0; k < tn; k++) tmp[k] = m.ids[i][k];
+					m.n[i] = m.n[j]; for(int k = 0; k < m.n[j]; k++) m.ids[i][k] = m.ids[j][k];
+					m.n[j] = tn; for(int k = 0; k < tn; k++) m.ids[j][k] = tmp[k];
+					tn = m.nf[i]; for(int k = 0; k < tn; k++) tmp[k] = m.fids[i][k];
+					m.nf[i] = m.nf[j]; for(int k = 0; k < m.nf[j]; k++) m.fids[i][k] = m.fids[j][k];
+					m.nf[j] = tn; for(int k = 0; k < tn; k++) m.fids[j][k] = tmp[k];
+					for(int k = 0; k < 2; k++) { if(g->hown[k] == i) g->hown[k] = j; else if(g->hown[k] == j) g->hown[k] = i; }
+				}
+				vf_cover(COV_ASSIGN_INSIDE);
+			}
+		}
+#endif
+#if OBJ == 2
+		else if(kind == kDqn) {           // DisableQueueNotify objects used as values: two guards on the queue, one assigned onto the other, both destroyed:
+			// no DisableQueueNotify object is alive afterwards, so notification is enabled again (observe(): waitFor(0) reports pending events)
+			{
+				T::DisableQueueNotify g1(obj(i));
+				{ T::DisableQueueNotify g2(obj(i)); g1 = std::move(g2); }
+			}
+			vf_cover(COV_DQN_ASSIGN);
+		}
+#endif
 #ifdef FILTERS
 		else if(kind == nk) {             // add a filter (to a copy or an original: later changes to either never affect the other)
 			if(m.nf[i] < MAXL) { uint32_t f = g->nextid++; obj(i)->appendFilter([f](uint32_t & a) { g_tr.add(1000u + f, a, 0); a += f; return true; }); m.fids[i][m.nf[i]++] = f; }
